@@ -1956,7 +1956,9 @@ def _first_rejected_leaf(d, val):
             elif isinstance(x, (list, tuple, set, frozenset, dict)) or type(x).__name__ in ('frozenlist', 'frozendict'):
                 # a container sitting where the unified type has a scalar: an EMPTY container imputes to an element type of None,
                 # which super_unify_types drops instead of refusing (same leniency as the struct-union finding)
-                found.append('container-unified-away' if _untyped(x) else f'{tt}<-{mod}.{type(x).__name__}')
+                # (observed with empty / all-missing containers and with containers of empty structs: impute_type's unification of
+                #  dict values keeps one member's type and ignores a container member instead of refusing)
+                found.append('container-unified-away')
             else:
                 found.append(f'{tt}<-{mod}.{type(x).__name__}')
             return False
